@@ -4,9 +4,14 @@ L4 = ["layer4/verif_common_test.go"]
 INTEG = ["integration/verif_common_test.go"]
 
 MATCH = dict(name="match", pkg="./integration/", test="TestVerifMatch", files=INTEG + ["integration/verif_chain_test.go", "integration/verif_match_test.go", "integration/verif_match2_test.go", "integration/verif_match3_test.go"],
-             nq=20000, nt=400000)
+             nq=60000, nt=600000)
 
 PROPS = {
+    "C14": dict(
+        lean_modules=["L4.Props.C14"],
+        stages=[dict(MATCH, only_sigs=["spec-mismatch:"])],
+        level_text="x", level_note="y",
+    ),
     "C06": dict(
         lean_modules=["L4.Props.C06"],
         stages=[dict(MATCH, only_sigs=["socket-read:", "nondeterministic:", "no-not-stable:", "fragment-rejected:", "set-not-conjunction"])],
